@@ -170,7 +170,12 @@ func vh_C17_L2_wrong_kind_abort() {
 	il := vPick(2) == 1
 	a, _ := vNewAssocOpts(vAssocOpts{interleaving: il})
 	cum := a.peerLastTSN()
-	c := vDataChunk(a, cum+1, 4, nondetBool(), 1)
+	// any TSN: fresh, duplicate, held out of order or outside the window
+	if vPick(2) == 1 {
+		vassert(vDeliver(a, vDataChunk(a, cum+3, 5, true, 1)) == nil, "a chunk held out of order")
+		a.willSendAbort = false
+	}
+	c := vDataChunk(a, nondetU32(), 4, nondetBool(), 1)
 	c.iData = !il // the wrong kind
 	vassert(vDeliver(a, c) == nil, "wrong-kind DATA is not fatal to the read loop")
 	vassert(a.willSendAbort, "wrong payload chunk kind requests an ABORT")
